@@ -16,12 +16,15 @@
 (*               = "lagging" the previous delta is merged again (the code  *)
 (*                           before the fix)                               *)
 (*   TmpName     = "fresh" | "constant"   (rewrite.freshPredicateName)     *)
+(*   DoFeedback  = "rerun"   facts added by do-transforms are the delta of *)
+(*                           further incremental rounds (after the fix)    *)
+(*               = "none"    they are only added to the store (before)     *)
 (* The order in which strata, rules and predicates are visited comes from  *)
 (* Go map iteration; here it is nondeterministic choice.                   *)
 (***************************************************************************)
 EXTENDS Semantics
 
-CONSTANTS MergeTiming, TmpName,
+CONSTANTS MergeTiming, TmpName, DoFeedback,
           Programs      \* set of [rules |-> set of clauses, edb |-> set of facts, limit |-> Nat]
 
 VARIABLES prog,      \* the program being evaluated
@@ -29,8 +32,9 @@ VARIABLES prog,      \* the program being evaluated
           delta,     \* facts first derived in the previous round
           todo,      \* strata (sets of predicates) not yet evaluated
           cur,       \* [preds, plain, dos] of the stratum being evaluated
-          phase, round, created, outcome
-vars == <<prog, store, delta, todo, cur, phase, round, created, outcome>>
+          phase, round, created, outcome,
+          doDone     \* the do-transforms of the current stratum have been applied
+vars == <<prog, store, delta, todo, cur, phase, round, created, outcome, doDone>>
 
 ---------------------------------------------------------------------------
 \* (SCCs, ReadyComp: see Semantics.tla)
@@ -68,13 +72,13 @@ DeriveDelta(c, i, I, D) ==
 ---------------------------------------------------------------------------
 Init == /\ prog \in Programs
         /\ store = {} /\ delta = {} /\ todo = {} /\ cur = [preds |-> {}, plain |-> {}, dos |-> {}, orig |-> {}]
-        /\ phase = "load" /\ round = 0 /\ created = 0 /\ outcome = "running"
+        /\ phase = "load" /\ round = 0 /\ created = 0 /\ outcome = "running" /\ doDone = FALSE
 
 LoadFacts == /\ phase = "load"
              /\ store' = prog.edb
              /\ todo' = SCCs(prog.rules)
              /\ phase' = "next"
-             /\ UNCHANGED <<prog, delta, cur, round, created, outcome>>
+             /\ UNCHANGED <<prog, delta, cur, round, created, outcome, doDone>>
 
 BeginStratum ==
   /\ phase = "next" /\ todo # {}
@@ -82,21 +86,21 @@ BeginStratum ==
        /\ ReadyComp(prog.rules, c, HeadPreds(prog.rules) \ UNION todo)
        /\ cur' = [preds |-> c] @@ Rewritten({r \in prog.rules : r.h.p \in c})
        /\ todo' = todo \ {c}
-  /\ phase' = "first" /\ round' = 0 /\ delta' = {}
+  /\ phase' = "first" /\ round' = 0 /\ delta' = {} /\ doDone' = FALSE
   /\ UNCHANGED <<prog, store, created, outcome>>
 
 FirstRound ==
   /\ phase = "first"
   /\ delta' = UNION {Derive(r, store) : r \in cur.plain}
   /\ phase' = IF delta' = {} THEN "do" ELSE "merge0"   \* the code enters the incremental loop only with a non-empty delta
-  /\ UNCHANGED <<prog, store, todo, cur, round, created, outcome>>
+  /\ UNCHANGED <<prog, store, todo, cur, round, created, outcome, doDone>>
 
 Merge0 ==
   /\ phase = "merge0"
   /\ store' = store \cup delta
   /\ created' = created + Cardinality(delta \ store)
   /\ phase' = "delta"
-  /\ UNCHANGED <<prog, delta, todo, cur, round, outcome>>
+  /\ UNCHANGED <<prog, delta, todo, cur, round, outcome, doDone>>
 
 DeltaRound ==
   /\ phase = "delta"
@@ -108,26 +112,33 @@ DeltaRound ==
         /\ created' = created + Cardinality(new)
         /\ phase' = IF new = {} THEN "do" ELSE "delta"
   /\ round' = round + 1
-  /\ UNCHANGED <<prog, todo, cur, outcome>>
+  /\ UNCHANGED <<prog, todo, cur, outcome, doDone>>
 
-\* the lagging variant still has to flush the last delta when the loop ends
+\* do-transforms run once per stratum, after the fixpoint of its plain rules; what they add is
+\* the delta of further incremental rounds ("rerun")
 DoPhase ==
   /\ phase = "do"
-  /\ LET base == store \cup delta IN
-     store' = base \cup UNION {Aggregate(r, base) : r \in cur.dos}
-  /\ phase' = "next"
-  /\ UNCHANGED <<prog, delta, todo, cur, round, created, outcome>>
+  /\ IF doDone THEN /\ phase' = "next" /\ UNCHANGED <<store, delta, doDone, created>>
+     ELSE LET base == store \cup delta
+              new == (UNION {Aggregate(r, base) : r \in cur.dos}) \ base IN
+          /\ store' = base \cup new
+          /\ created' = created + Cardinality(new)
+          /\ doDone' = TRUE
+          /\ IF DoFeedback = "rerun" /\ new # {}
+             THEN delta' = new /\ phase' = "delta"
+             ELSE delta' = delta /\ phase' = "next"
+  /\ UNCHANGED <<prog, todo, cur, round, outcome>>
 
 Finish ==
   /\ phase = "next" /\ todo = {}
   /\ phase' = "done" /\ outcome' = "ok"
-  /\ UNCHANGED <<prog, store, delta, todo, cur, round, created>>
+  /\ UNCHANGED <<prog, store, delta, todo, cur, round, created, doDone>>
 
 \* WithCreatedFactLimit: the run may stop with an error once more than limit facts were created
 LimitTrip ==
   /\ phase \in {"delta", "merge0", "do"} /\ prog.limit > 0 /\ created > prog.limit
   /\ phase' = "done" /\ outcome' = "limit_err"
-  /\ UNCHANGED <<prog, store, delta, todo, cur, round, created>>
+  /\ UNCHANGED <<prog, store, delta, todo, cur, round, created, doDone>>
 
 Next == LoadFacts \/ BeginStratum \/ FirstRound \/ Merge0 \/ DeltaRound \/ DoPhase \/ Finish \/ LimitTrip
 Spec == Init /\ [][Next]_vars
